@@ -384,6 +384,16 @@ func (c19) RunCase(c *core.Ctx) {
 	if c.Case%200 == 17 && !c19PointerDefault(c) {
 		return
 	}
+	if c.Case%100 == 33 {
+		// defaults holding reference-typed values that custom schemas hand over as they are, below structs, slices and Preprocess
+		name, problem := dDefaultsIndependent(c.R)
+		c.Eval(2)
+		if problem != "" {
+			c.Violation("builder-value-modified|by-writing-to-the-destination-afterwards", map[string]any{"schema": name, "observed": problem})
+			return
+		}
+		c.Distinct("directed_default_schemas", name)
+	}
 	n, special := c19Schema(c.R)
 	src := n.Source()
 	b := spec.Build(n, nil) // ONE schema object for the whole history
